@@ -142,9 +142,20 @@ pub fn case_xml(c: &Case) -> String {
         ));
         kids.push(X::El(XEl::new("rect").a("xy", "0 -20").a("wh", "5").a("class", "mine")));
     }
-    kids.extend(c.els.iter().enumerate().map(|(i, e)| X::El(el_xml(i, e))));
+    // (the nested <svg> comes before the other elements in every other document: its end tag is not the document's)
+    let nested_first = c.nested_ns && c.els.len() % 2 == 1;
+    let at = kids.len();
+    for (i, e) in c.els.iter().enumerate() {
+        let mut el = el_xml(i, e);
+        // a class list handed over through a variable is a class list all the same
+        if i % 3 == 1 && e.classes.len() >= 2 && e.kind % 10 != 9 {
+            kids.push(X::El(XEl::new("var").a(&format!("cv{i}"), e.classes.join(" "))));
+            el.set("class", format!("$cv{i}"));
+        }
+        kids.push(X::El(el));
+    }
     if c.nested_ns {
-        kids.push(X::El(XEl::new("g").kid(XEl::new("svg").a("xmlns", "http://www.w3.org/2000/svg").a("x", "0").a("y", "40").a("width", "4").a("height", "4").kid(XEl::new("circle").a("cx", "2").a("cy", "2").a("r", "2")))));
+        kids.insert(if nested_first { at } else { kids.len() }, X::El(XEl::new("g").kid(XEl::new("svg").a("xmlns", "http://www.w3.org/2000/svg").a("x", "0").a("y", "40").a("width", "4").a("height", "4").kid(XEl::new("circle").a("cx", "2").a("cy", "2").a("r", "2")))));
     }
     if c.rooted {
         let attrs = if c.root_classes.is_empty() { vec![] } else { vec![("class".to_string(), c.root_classes.join(" "))] };
